@@ -57,6 +57,16 @@ CHECKS = {
              "for all field values; debug-hex flags are not observable on stable and are not compared.",
         technique="TLA+ spec (FmtTransparent) + TLC exhaustive decision table, replay as real types over an outer-spec grid",
         design="4 (C05)"),
+    "C07": dict(
+        text="TLC model-checks FmtShared.tla (the documented wrap/default/reject rule vs the transcription of "
+             "shared_attr_info + generate_body + the `_variant` specifier check + Debug's rejection) on every enum of up to "
+             "2 (quick) / 3 (thorough) variants x 14 enum-level forms x derived trait; each enum is compiled with the real "
+             "derive and the text of every variant value compared with the text the specification prescribes; enums the "
+             "rule rejects must fail to compile.",
+        note="4 variant shapes x 4 own-attribute forms, integer field values; the literal forms are fixed representatives "
+             "(parser generality is C03's).",
+        technique="TLA+ spec (FmtShared) + TLC exhaustive enums, replay as real enums (text / compile verdict)",
+        design="4 (C07)"),
 }
 
 NOT_YET = {}
